@@ -733,7 +733,8 @@ def search(ctx):
         if ff: record([('C06-stale-state', ff[0])], {'stale': {'a': gen.seg_json(a), 'b': gen.seg_json(b)}}, 'the same answer as for freshly constructed curves with the same control points')
     for _ in range(ctx.n(300, 6000)):
         k = rng.random()
-        c = looping_cubic(rng) if k < 0.5 else rcurve(rng, 4, integer=rng.random() < 0.3)
+        # loops of every absolute size (the loop test is scale-free): em-normalised outlines have loops a few thousandths of a unit across
+        c = looping_cubic(rng, scale=rng.choice([300.0, 300.0, 30.0, 1.0, 0.05, 0.005, 5000.0])) if k < 0.5 else rcurve(rng, 4, integer=rng.random() < 0.3)
         f, interior, why = check_cubic_loop(c)
         if f is None:
             dist_[f'cubic/skipped-{why}'] = dist_.get(f'cubic/skipped-{why}', 0) + 1; continue
